@@ -58,9 +58,7 @@ impl CalSet {
 
 /// Constant value of a parameter expression, if it has no variables / memory references.
 fn constant(e: &Expression) -> Option<num_complex::Complex64> {
-    let env = crate::model::eval::Env::default();
-    let mut d = crate::model::eval::Diag::default();
-    crate::model::eval::eval(e, &env, &mut None, &mut d)
+    crate::model::eval::eval_closed(e)
 }
 
 /// "non-variable parameters equal its own": equal constants, or structurally equal otherwise.
